@@ -10,6 +10,19 @@ use std::rc::Rc;
 
 // ========================================================================= //
 
+/// An MSI database has a single value for null and for the empty string, and
+/// stores it as null.  Cell values given to a query are brought into that
+/// form up front, so that validation and primary key comparisons see the
+/// value that will actually be stored.
+fn normalize(value: Value) -> Value {
+    match value {
+        Value::Str(ref string) if string.is_empty() => Value::Null,
+        value => value,
+    }
+}
+
+// ========================================================================= //
+
 /// A database query to delete existing rows.
 pub struct Delete {
     table_name: String,
@@ -126,13 +139,15 @@ impl Insert {
 
     /// Adds a new row to be inserted into the table.
     pub fn row(mut self, values: Vec<Value>) -> Insert {
-        self.new_rows.push(values);
+        self.new_rows.push(values.into_iter().map(normalize).collect());
         self
     }
 
     /// Adds multiple new rows to be inserted into the table.
-    pub fn rows(mut self, mut rows: Vec<Vec<Value>>) -> Insert {
-        self.new_rows.append(&mut rows);
+    pub fn rows(mut self, rows: Vec<Vec<Value>>) -> Insert {
+        for values in rows.into_iter() {
+            self = self.row(values);
+        }
         self
     }
 
@@ -640,7 +655,7 @@ impl Update {
         column_name: S,
         value: Value,
     ) -> Update {
-        self.updates.push((column_name.into(), value));
+        self.updates.push((column_name.into(), normalize(value)));
         self
     }
 
